@@ -132,7 +132,8 @@ ConstraintsWhy(o) ==
     (IF \A g \in 1 .. 4 : av[g] \subseteq ArchRegs(o.arch)[g] THEN {} ELSE {"constraints:" \o o.arch \o ":register-does-not-exist"}) \cup
     (IF av[1] # {} /\ av[2] # {} THEN {} ELSE {"constraints:" \o o.arch \o ":nothing-available"}) \cup
     (IF o.arch # "aarch64" \/ 18 \notin av[1] THEN {} ELSE {"constraints:aarch64:platform-register-available"}) \cup
-    (IF av[1] = (IF o.arch = "x86" THEN (0 .. 7) \ {4} ELSE IF o.arch = "x64" THEN (0 .. 15) \ {4} ELSE (0 .. 30) \ {18}) THEN {}
+    (LET want == IF o.arch = "x86" THEN (0 .. 7) \ {4} ELSE IF o.arch = "x64" THEN (0 .. 15) \ {4} ELSE (0 .. 30) \ {18} IN
+     IF av[1] \subseteq want /\ (want \ av[1]) \subseteq {o.fp} THEN {}          \* everything but SP (x18), the frame pointer may be held back
      ELSE {"constraints:" \o o.arch \o ":gp-set"})
   ELSE IF o.arch = "unknown" THEN (IF o.r # "Ok" THEN {} ELSE {"constraints:unknown-arch-accepted"})
   ELSE {}
